@@ -334,6 +334,8 @@ def _discharge_ring(self, ob, dom):
     """DPLL(T)-style loop: the SMT solver sees ring equalities as propositional atoms; every model is checked
     against the theory of fields of characteristic p by certified ideal membership, which yields lemmas"""
     from .ringlemmas import m1_lemmas, all_atoms, theory_check
+    from .ring import set_mod, P25519
+    set_mod(getattr(getattr(ob, "run", None), "ringmod", P25519))
     import time as _t
     t0 = _t.time()
     lemmas, certs = m1_lemmas(all_atoms(ob))
